@@ -57,6 +57,15 @@ impl LoadError {
             LoadError::Missing(_) => "Missing",
         }
     }
+    /// First line of the message, without positions.
+    pub fn message(&self) -> String {
+        let m = match self {
+            LoadError::Syntax(_, errs) => errs.first().map(|(m, _)| m.clone()).unwrap_or_default(),
+            LoadError::Compile(e) => e.to_string(),
+            LoadError::Missing(_) => "missing module".into(),
+        };
+        m.lines().next().unwrap_or("").chars().take(60).collect()
+    }
     pub fn spans(&self) -> Vec<Span> {
         match self {
             LoadError::Syntax(_, errs) => errs.iter().map(|(_, s)| s.clone()).collect(),
